@@ -155,6 +155,9 @@ class IdScn:
             pre = []
             for spec in P.get("pre", []):
                 pre.append(g.makegateway(spec))
+            if P.get("start_faults"):
+                # environment fault: this process cannot start one of the threads it asks for
+                w.opts["start_faults"] = S.proc
             w.exploring = True
 
             def snapshot(tag):
@@ -192,6 +195,7 @@ class IdScn:
                 S.user(exiter, "exiter")
             S.join_users()
             w.exploring = False
+            w.opts["start_faults"] = None
             gws = list(g)
             ids = [x.id for x in gws]
             cons = all(g[i] is x and g[x.id] is x and x.id in g and x in g for i, x in enumerate(gws)) and len(g) == len(gws)
